@@ -34,6 +34,7 @@ func WriteAccumulator(w CSV, aggr *aggregation.AccumulatingGroup) error {
 
 	row := make([]string, aggr.ColCount())
 	for _, group := range aggr.Groups(sorting.ByName) {
+		clear(row[:aggr.GroupColCount()]) // an empty group has no parts: do not keep the previous row's
 		copy(row, group.Parts())
 		copy(row[aggr.GroupColCount():], aggr.DataNoCopy(group))
 		if err := w.Write(row); err != nil {
